@@ -236,3 +236,60 @@ func isHarnessName(full string) bool {
 	}
 	return len(n) >= 2 && n[0] == 'v' && n[1] >= 'A' && n[1] <= 'Z'
 }
+
+// ---- guard: globals of packages whose initialiser is not run ----
+
+var initAssigned map[*ssa.Global]bool
+var GuardHits = map[string]int{}
+
+// zeroOK lists globals of skipped packages whose zero value is their real initial state or whose
+// readers are modelled.
+var zeroOK = map[string]bool{}
+
+func computeInitAssigned(prog *ssa.Program) {
+	initAssigned = map[*ssa.Global]bool{}
+	var root func(v ssa.Value) *ssa.Global
+	root = func(v ssa.Value) *ssa.Global {
+		switch v := v.(type) {
+		case *ssa.Global:
+			return v
+		case *ssa.FieldAddr:
+			return root(v.X)
+		case *ssa.IndexAddr:
+			return root(v.X)
+		}
+		return nil
+	}
+	for _, p := range prog.AllPackages() {
+		for name, mem := range p.Members {
+			f, ok := mem.(*ssa.Function)
+			if !ok || !(name == "init" || strings.HasPrefix(name, "init#")) {
+				continue
+			}
+			for _, b := range f.Blocks {
+				for _, in := range b.Instrs {
+					if st, ok := in.(*ssa.Store); ok {
+						if g := root(st.Addr); g != nil {
+							initAssigned[g] = true
+						}
+					}
+				}
+			}
+		}
+	}
+}
+
+func guardGlobal(i *interpreter, g *ssa.Global) {
+	if initAssigned == nil {
+		computeInitAssigned(i.prog)
+	}
+	if !initAssigned[g] {
+		return
+	}
+	name := g.Pkg.Pkg.Path() + "." + g.Name()
+	if zeroOK[name] {
+		return
+	}
+	GuardHits[name]++
+	panic(pathAbort{"unsupported: read of " + name + ", a variable set by an initialiser that is not run (add the package to the unit's init list)"})
+}
